@@ -147,6 +147,7 @@ type Obs struct {
 	samples  []interface{}
 	extra    map[string]int64
 	crumb    *os.File
+	crumbFD  int
 	skip     []string // choice sequences not to execute again
 }
 
@@ -176,14 +177,46 @@ func (o *Obs) Sample(f func() interface{}) {
 	}
 }
 
+// Invisible is kept for harness bookkeeping that must not leave synchronisation events for the race
+// detector (unused by the breadcrumbs: see crumbNoSkip).
+var Invisible = func(f func()) { f() }
+
+// crumbNoSkip writes the breadcrumb from inside a scheduled thread.  It must not create any
+// happens-before edge between threads in the race detector's view: no os.File (its descriptor lock is
+// real synchronisation), no encoding/json (pooled encoder state) - a raw pwrite of a locally formatted
+// buffer.  (syscall.Pwrite only *releases* on the runtime's ioSync token; nobody acquires it.)
+//
 //go:norace
 func (o *Obs) crumbNoSkip(choices []int) {
-	if o.crumb == nil {
+	if o.crumbFD <= 0 {
 		return
 	}
-	b, _ := json.Marshal(choices)
-	b = append(b, '\n')
-	o.crumb.WriteAt(append(b, make([]byte, 8)...), 0)
+	var buf [4096]byte
+	n := 0
+	buf[n] = '['
+	n++
+	for i, c := range choices {
+		if n > len(buf)-32 {
+			break
+		}
+		if i > 0 {
+			buf[n] = ','
+			n++
+		}
+		var tmp [20]byte
+		k := len(tmp)
+		if c == 0 {
+			k--
+			tmp[k] = '0'
+		}
+		for x := c; x > 0; x /= 10 {
+			k--
+			tmp[k] = byte('0' + x%10)
+		}
+		n += copy(buf[n:], tmp[k:])
+	}
+	n += copy(buf[n:], "]\n        ")
+	syscall.Pwrite(o.crumbFD, buf[:n], 0)
 }
 
 // Crumb records the case about to be executed so that a worker death can be pinned.
@@ -331,6 +364,7 @@ func runWorker(ck *Check, tier universe.Tier, spec, out string, budget time.Dura
 	}
 	if f, err := os.Create(out + ".crumb"); err == nil {
 		Cur.crumb = f
+		Cur.crumbFD = int(f.Fd())
 	}
 	if b, err := os.ReadFile(out + ".skip"); err == nil {
 		for _, l := range strings.Split(string(b), "\n") {
